@@ -13,6 +13,9 @@ inductive TDesc where
   | greedy (elem : TDesc)                 -- `List[T]`: consume to the end
   | rest                                  -- raw `Bytes`: everything that is left
   | struct (fields : List TDesc)
+  /-- a struct whose `deserialize` first pads the input when exactly `len` bytes remain: `pad` zero bytes
+  are inserted at offset `at_` (EmberKeyStruct's tolerance for a short `key` field) -/
+  | padstruct (len at_ pad : Nat) (fields : List TDesc)
   | opt (t : TDesc)                       -- struct field that may be absent at the tail
   | cond (t : TDesc)                      -- struct field with a `requires` predicate
   | invalid                               -- anything the translator could not lower
@@ -35,6 +38,7 @@ def TDesc.valid : TDesc → Bool
   | .greedy e => e.valid && !e.isGreedy
   | .rest => true
   | .struct fs => validAll fs
+  | .padstruct _ _ _ fs => validAll fs
   | .opt t => t.valid
   | .cond t => t.valid
   | .invalid => false
@@ -44,6 +48,7 @@ def TDesc.isGreedy : TDesc → Bool
   | .opt _ => true
   | .cond _ => true
   | .struct fs => anyGreedy fs
+  | .padstruct _ _ _ fs => anyGreedy fs
   | _ => false
 def validAll : List TDesc → Bool
   | [] => true
